@@ -5,6 +5,7 @@ import (
 	"context"
 
 	"git.defalsify.org/vise.git/cache"
+	"git.defalsify.org/vise.git/db"
 	fsdb "git.defalsify.org/vise.git/db/fs"
 	"git.defalsify.org/vise.git/engine"
 	"git.defalsify.org/vise.git/persist"
@@ -117,7 +118,72 @@ func Crash(v *vrt.Ctx) {
 	v.Assert(c17.Same(v, other, other2), "C12/other-sessions-untouched")
 }
 
+// FirstSave: the session has no record yet (its previous state is "nothing
+// saved"); the process dies at an arbitrary point of the session's very first
+// request, in which the engine saves twice: once to register the new session,
+// once with the state after execution. A later start finds no record at all,
+// or a complete one - the registered or the final state - and never a record
+// that exists and does not load.
+func FirstSave(v *vrt.Ctx) {
+	ctx := context.Background()
+	dir, ref, reg := v.TempDir(), v.TempDir(), v.TempDir()
+	serve(v, ctx, dir, "s1.b", nil, false)
+	other, ok := load(ctx, dir, "s1.b")
+	v.Assume(ok)
+	first := func(d string, finish bool) {
+		store := fsdb.NewFsDb()
+		store.Connect(ctx, d)
+		cfg := engine.Config{Root: "root", FlagCount: 4, SessionId: "s1", OutputSize: 80}
+		en := engine.NewEngine(cfg, apps.Intro()).WithPersister(persist.NewPersister(store))
+		if _, err := en.Exec(ctx, nil); err != nil {
+			return
+		}
+		en.Flush(ctx, &app.Sink{})
+		if finish {
+			en.Finish(ctx)
+		}
+	}
+	first(ref, true)
+	want, ok := load(ctx, ref, "s1")
+	v.Assume(ok)
+	first(reg, false)
+	registered, ok := load(ctx, reg, "s1")
+	v.Assume(ok)
+
+	crashed := v.CrashWindow(16, func() { first(dir, true) })
+	v.Observe("crashed", crashed)
+
+	store := fsdb.NewFsDb()
+	store.Connect(ctx, dir)
+	store.SetPrefix(db.DATATYPE_STATE)
+	_, gerr := store.Get(ctx, []byte("s1"))
+	got, ok := load(ctx, dir, "s1")
+	if gerr != nil {
+		v.Assert(db.IsNotFound(gerr), "C12/first-save-leaves-no-record-or-a-complete-one")
+		v.Assert(crashed, "C12/completed-save-stores-the-new-state")
+		v.Cover("C12/first-save-crash-leaves-no-record")
+	} else {
+		v.Assert(ok, "C12/first-save-leaves-no-record-or-a-complete-one")
+		if !crashed {
+			v.Assert(c17.Same(v, got, want), "C12/completed-save-stores-the-new-state")
+			v.Cover("C12/first-save-no-crash")
+		} else {
+			v.Assert(v.Or(c17.Same(v, got, registered), c17.Same(v, got, want)), "C12/first-save-leaves-no-record-or-a-complete-one")
+			v.Cover("C12/first-save-crash-leaves-a-record")
+		}
+	}
+	// the session can be served from what is there
+	_, cerr := serveErr(v, ctx, dir, "s1", []byte("1"), false)
+	v.Assert(cerr == nil, "C12/session-continues")
+	_, ok = load(ctx, dir, "s1")
+	v.Assert(ok, "C12/session-continues")
+	other2, ok := load(ctx, dir, "s1.b")
+	v.Assert(ok, "C12/other-sessions-untouched")
+	v.Assert(c17.Same(v, other, other2), "C12/other-sessions-untouched")
+}
+
 var Harnesses = map[string]func(*vrt.Ctx){
+	"FirstSave": FirstSave,
 	"Crash": Crash,
 	"Dbg":   Dbg,
 }
